@@ -91,6 +91,25 @@ func (g *gl) call(c *ast.CallExpr, bs *[]glBind) string {
 	case "bytes.HasPrefix":
 		a := g.expr(c.Args[0], bs)
 		return fmt.Sprintf("(%s.isPrefixOf %s)", atom(g.expr(c.Args[1], bs)), a)
+	case "bytes.Trim", "bytes.TrimRight", "bytes.TrimLeft":
+		// a constant ASCII cutset: trimming runes and trimming bytes coincide (a byte >= 0x80 is never in the cutset)
+		if tv := g.info().Types[c.Args[1]]; tv.Value != nil && tv.Value.Kind() == constant.String {
+			cut := constant.StringVal(tv.Value)
+			ascii := true
+			var xs []string
+			for i := 0; i < len(cut); i++ {
+				if cut[i] >= 0x80 {
+					ascii = false
+				}
+				xs = append(xs, fmt.Sprintf("%d", cut[i]))
+			}
+			if ascii {
+				fn := map[string]string{"bytes.Trim": "trimBoth", "bytes.TrimRight": "trimRight", "bytes.TrimLeft": "trimLeft"}[name]
+				return fmt.Sprintf("(%s %s ([%s] : Bytes))", fn, g.expr(c.Args[0], bs), strings.Join(xs, ", "))
+			}
+		}
+		g.bad(c.Pos(), "%s with a non-constant or non-ASCII cutset", name)
+		return "[]"
 	case "bytes.IndexByte":
 		return fmt.Sprintf("(indexByte %s %s)", g.expr(c.Args[0], bs), g.expr(c.Args[1], bs))
 	case "bytes.IndexFunc":
